@@ -273,7 +273,7 @@ def spec() -> Spec:
         extract=extract,
         nontrivial=nontrivial,
         signature=signature,
-        budget={"quick": 550, "thorough": 12000},
+        budget={"quick": 550, "thorough": 7000},
         search_budget={"quick": 2500, "thorough": 20000},
         rule="timed announce histories from 1-3 peers over 1-2 chunks against a real Node under the virtual clock; throttle "
              "configurations incl. zero, negative, interval > window, > 1 h and values whose nanosecond conversion overflows; every "
